@@ -137,6 +137,12 @@ func (m *Message) Marshal(protoVersion string) (data []byte, err error) {
 		}
 	}
 
+	// trailer (absent in records written by earlier versions, which also ignore it): how often the message
+	// has been handed out already, so that a delivery after a restart is still flagged redelivered
+	if err = WriteLong(buffer, m.DeliveryCount); err != nil {
+		return nil, err
+	}
+
 	data = make([]byte, buffer.Len())
 	copy(data, buffer.Bytes())
 	return
@@ -165,6 +171,12 @@ func (m *Message) Unmarshal(buffer []byte, protoVersion string) (err error) {
 			return errFrame
 		}
 		m.Append(body)
+	}
+
+	if reader.Len() >= 4 {
+		if m.DeliveryCount, err = ReadLong(reader); err != nil {
+			return err
+		}
 	}
 
 	return nil
